@@ -2,9 +2,10 @@
 use std::io::Write;
 use tyme4rs::tyme::Tyme;
 use tyme4rs::tyme::solar::{SolarTerm, SolarTime};
+use tyme4rs::tyme::Culture;
 use crate::util::*;
 
-const OPS: &[&str] = &["term.of", "term.next", "term.new", "term.day", "term.oftime"];
+const OPS: &[&str] = &["term.of", "term.ofd", "term.byname", "term.next", "term.new", "term.day", "term.oftime"];
 
 pub fn exec(op: &str, a: &[i64]) -> Option<Option<String>> {
   if OPS.contains(&op) { Some(go(op, a)) } else { None }
@@ -18,6 +19,17 @@ fn go(op: &str, a: &[i64]) -> Option<String> {
       let td = d.get_term_day();
       let t = td.get_solar_term();
       Some(format!("{} {} {}", t.get_year(), t.get_index(), td.get_day_index()))
+    }
+    // civil day -> (term year, term index) through SolarDay::get_term()
+    ("term.ofd", 3) => {
+      let t = solar_day(a[0], a[1], a[2])?.get_term();
+      Some(format!("{} {}", t.get_year(), t.get_index()))
+    }
+    // the term (y, i) found again BY ITS NAME in its own year (SolarTerm::from_name): year, index, and the same day as by index
+    ("term.byname", 2) => {
+      let t = SolarTerm::from_index(a[0] as isize, a[1] as isize);
+      let u = SolarTerm::from_name(t.get_year(), &t.get_name());
+      Some(format!("{} {} {}", u.get_year(), u.get_index(), (u.get_julian_day().get_day() == t.get_julian_day().get_day()) as u8))
     }
     // instant -> (term year, term index)
     ("term.oftime", 6) => {
